@@ -16,7 +16,8 @@ from vf import core, linalg
 
 ID = "C03"
 LEV = {"f": ["a", "b"], "g": ["s", "t", "u"], "h": ["p", "q"], "j": ["m", "n"], "k": [1, 2, 3], "m": ["v", "w"]}
-LEVSETS = [dict(LEV), {"f": ["a", "b", "c"], "g": ["s", "t"], "h": ["p", "q", "r"], "j": ["m", "n"], "k": [1, 2], "m": ["v", "w"]}]
+LEVSETS = [dict(LEV), {"f": ["a", "b", "c"], "g": ["s", "t"], "h": ["p", "q", "r"], "j": ["m", "n"], "k": [1, 2], "m": ["v", "w"]},
+           {"f": ["a"], "g": ["s", "t", "u"], "h": ["p", "q"], "j": ["m", "n"], "k": [1, 2, 3], "m": ["v", "w"]}]  # [2]: f has a single level
 NUM = ["x", "z"]
 
 
@@ -308,6 +309,10 @@ def run(tier, seed):
     items = base + extra
     chunks = [items[i::128] for i in range(128)]
     jobs = [{"items": ch, "seed": seed} for ch in chunks if ch]
+    # a factor with exactly one level in the data
+    one = [(fam, ic) for fam in [("f",), ("f", "g"), ("g", "f"), ("g", "f", "x"), ("g:f",), ("f:x",), ("f", "g", "f:g"), ("C(f)", "x"), ("x", "f:x"), ("f", "h", "g:h")] for ic in (True, False)]
+    jobs.append({"items": one, "seed": seed, "levset": 2})
+    rep.bounds["one-level factor"] = f"{len(one)} formulas on data where f has a single level"
     if tier != "quick":
         # second assignment of level counts (f: 3, g: 2, h: 3) for a third of the base family
         alt = [it for i, it in enumerate(base) if i % 3 == 0]
